@@ -44,7 +44,18 @@ impl Concurrent<VirtualSystem> {
         F: Future<Output = ()>,
     {
         let mut task = pin!(task);
-        while poll!(&mut task).is_pending() {
+        loop {
+            // A process that has been terminated (e.g. by a signal sent from
+            // another process while this one was waiting) must not run any more.
+            if let ProcessState::Halted(result) = self.inner.current_process().state()
+                && !result.is_stopped()
+            {
+                return;
+            }
+            if poll!(&mut task).is_ready() {
+                return;
+            }
+
             #[cfg(feature = "verif-hooks")]
             if crate::verif_hooks::take_yield_request() && self.inner.current_process().state().is_alive() {
                 // The task is at a preemption point: give way to the other
@@ -255,6 +266,30 @@ mod tests {
         let mut context = Context::from_waker(Waker::noop());
         assert_eq!(future.as_mut().poll(&mut context), Ready(()));
         assert!(dropped.get());
+    }
+
+    #[test]
+    fn run_virtual_does_not_resume_task_of_terminated_process_when_select_is_ready() {
+        let (system, now) = virtual_system_with_current_time();
+        let resumed = Rc::new(Cell::new(false));
+        let resumed_2 = Rc::clone(&resumed);
+        let mut future = pin!(system.run_virtual(async {
+            system.sleep(Duration::from_secs(1)).await;
+            resumed_2.set(true);
+        }));
+
+        let mut context = Context::from_waker(Waker::noop());
+        assert_eq!(future.as_mut().poll(&mut context), Pending);
+
+        // The process is killed and the timer expires before the next poll.
+        _ = system.inner.current_process_mut().raise_signal(SIGKILL);
+        system
+            .inner
+            .state
+            .borrow_mut()
+            .advance_time(now + Duration::from_secs(1));
+        assert_eq!(future.as_mut().poll(&mut context), Ready(()));
+        assert!(!resumed.get());
     }
 
     #[test]
